@@ -114,6 +114,14 @@ def run(v):
     from cmdline_check import run_protocol_only
     from checks.c04 import wild_defs
     pcov = run_protocol_only(v, wild_defs(SEED + 114, 60 if v.tier == "quick" else 300), 6000 if v.tier == "quick" else 100000, "C11w")
+    # adjacent subcommands with `fallback_to_usage`: the bare name prints the command's usage (stdout, status 0); the name
+    # followed by something the command cannot use is a failure (stderr, status 1) - the classes through GroupLine.tla
+    from cmdline_check import run_cmdline_property
+    q = v.tier == "quick"
+    acov = run_cmdline_property(v, D.acmd_ftu_family(SEED + 115, 9 if q else 27, maxlen=4 if q else 5, budget=3000 if q else 30000), None,
+                                replay_cfg="MC_GroupLine_replay.cfg", module="MC_GroupLine", signature=cmdline_sig.signature,
+                                trace_module="GroupLineTrace", name="C11a")
+    pcov["adjacent_command_usage_cases"] = acov.get("traces_validated_against_impl", 0)
     classes = {}
     samples = []
     for rec in read_ndjson(trace):
